@@ -74,6 +74,25 @@ AllFlatNames(S) == UNION {FlatNames(s) : s \in S}
 \* structures that inherit from t (so a new property of t must not clash with theirs)
 Heirs(t) == {s \in SName : t \in Ancestors(s)}
 
+(***************************************************************************)
+(* Well-foundedness.  A structure that must (through required properties   *)
+(* of reference / tuple type) contain an instance of itself has no finite  *)
+(* value at all; such a metamodel describes nothing and is outside every   *)
+(* generator's input discipline.  MustContain(t): the structures every     *)
+(* value of type t contains an instance of (arrays and maps may be empty,  *)
+(* a union is taken to offer an escape).                                    *)
+(***************************************************************************)
+RECURSIVE MustContain(_)
+MustContain(t) == CASE t.kind = "reference" -> IF t.name \in SName THEN {t.name} ELSE {}
+                    [] t.kind = "tuple" -> UNION {MustContain(t.items[i]) : i \in DOMAIN t.items}
+                    [] OTHER -> {}
+MustOf(s) == UNION {MustContain(FlatM[s][i].type) : i \in {i \in DOMAIN FlatM[s] : Required(FlatM[s][i])}}
+MustStep(S) == S \cup UNION {MustOf(s) : s \in S \cap SName}
+RECURSIVE MustClosure(_)
+MustClosure(S) == LET S2 == MustStep(S) IN IF S2 = S THEN S ELSE MustClosure(S2)
+\* a new required property of type ty on target closes a cycle of required containment
+ClosesCycle(target, ty) == target \in MustClosure(MustContain(ty))
+
 Pre(e) ==
     CASE e.k = "AddStructure" -> e.name \notin SName \cup EName \cup AName /\ ~ScriptHas("AddStructure")
       [] e.k = "AddProperty" ->
@@ -81,6 +100,7 @@ Pre(e) ==
             /\ e.name \notin AddedProps(e.target)
             /\ (e.target \in SName => e.name \notin FlatNames(e.target) \cup AllFlatNames(Heirs(e.target)))
             /\ (e.target = NewS => e.name \notin AllFlatNames(ParentsAdded \cap SName))
+            /\ (~e.optional => ~ClosesCycle(e.target, TyPool[e.ty]))
             \* a required property cannot be added to a structure other declarations' minimal values rely on
             \* without changing every producer: the generator has no opinion, so both are allowed
       [] e.k \in {"AddExtends", "AddMixin"} ->
